@@ -73,13 +73,35 @@ def encWorld (w : World) : List Sexp :=
     | some o => encObs o
     | none => sym "failed")
 
+/-- the mutation addresses an instance (by creation index) that was never created in the metamodel: the harness
+    has no object to hand to the library ("nothing to call": its answer is `no-such-instance`, the metamodel stays as
+    it is), while `applyOwn` is total on indices (delete: `deleteError`, set-attr: no row changes, relate / unrelate:
+    refused).  The driver answers as the harness does; the model's state is unchanged in all four cases.  (A generated
+    history reaches this only when it counts on a clone whose source metamodel failed to build.) -/
+def neverCreated (o : HMeta) (kind : String) (id : Nat) : Bool :=
+  match findHCls o.classes kind with
+  | some c => decide (c.created ≤ id)
+  | none => false
+
+def addressesMissing (o : HMeta) : Mut → Bool
+  | .delete k i => neverCreated o k i
+  | .setAttr k i _ _ => neverCreated o k i
+  | .relate n s t => match o.assocs[n]? with
+    | some a => neverCreated o a.stmt.srcKind s || neverCreated o a.stmt.tgtKind t
+    | none => false
+  | .unrelate n s t => match o.assocs[n]? with
+    | some a => neverCreated o a.stmt.srcKind s || neverCreated o a.stmt.tgtKind t
+    | none => false
+  | _ => false
+
 def stepRes (sh : Sharing) (w : World) : Op → Sexp
   | .input _ => sym "ok"
   | .build => match hbuild sh w.stmts with
     | some _ => sym "ok"
     | none => sym "error"
   | .mutate k μ => match w.metas[k]? with
-    | some (some o) => encRes (applyMut w.stmts o μ).2.2
+    | some (some o) =>
+      if addressesMissing o μ then sym "no-such-instance" else encRes (applyMut w.stmts o μ).2.2
     | _ => sym "no-target"
 
 def live (w : World) (k : Nat) : Bool :=
